@@ -198,6 +198,13 @@ def AlwaysTerminatesFull : Prop :=
       (runSched top s [] schedule).st.queue = [] →
       (runSched top s [] schedule).top.finished = true
 
+/-- ASSUMPTION shared by every executor-level theorem of this file: a completion and the callbacks it triggers are ONE step
+    (`deliver`). For the counter of `gather_futures` this is what the lock of fix 6013951 provides (`gather_shipped_sets_outer_once`,
+    every interleaving of COUNT / TEST steps); for the other callback bodies (`chain`, `unwrap_future`, the executor's closures)
+    it holds on one worker and is an assumption beyond. `always_terminates` is deadlock-freedom (`queue = [] → finished`); that the
+    queue empties within `weight op` completions is `terminates_within_bound` (Props/C08_progress.lean). -/
+def executorTheoremsAssumeAtomicCallbacks : Unit := ()
+
 /-- **always_terminates.** For every operation, every assignment of resolver modes and EVERY schedule:
     in every reachable state a pending overall result implies an outstanding task — every pending Future
     in the tree waits (through exact `gather` counters `done = #finished < target`) for a task that is
